@@ -36,6 +36,19 @@ def rgbaRGBA (r g b a : Nat) : Nat × Nat × Nat × Nat := (r * 257, g * 257, b 
 /-- `color.Gray{y}.RGBA()`: `y |= y<<8` for the three channels, alpha `0xffff`. -/
 def grayRGBA (y : Nat) : Nat × Nat × Nat × Nat := (y * 257, y * 257, y * 257, 0xffff)
 
+/-- One channel of `color.YCbCr.RGBA()`: the 24-bit fixed-point value `v` shifted down to 16 bits and clamped
+    (`if uint32(v)&0xff000000 == 0 { v >>= 8 } else { v = ^(v >> 31) & 0xffff }`: below zero ⇒ 0, 2²⁴ and above ⇒ 0xffff). -/
+def ycbcrClamp (v : Int) : Nat := if v < 0 then 0 else if v < 16777216 then (v / 256).toNat else 0xffff
+
+/-- `color.YCbCr{y, cb, cr}.RGBA()` (JFIF conversion in 16-bit precision, alpha `0xffff`):
+    `yy1 := y * 0x10101; cb1 := cb - 128; cr1 := cr - 128; r := yy1 + 91881*cr1; g := yy1 - 22554*cb1 - 46802*cr1;
+    b := yy1 + 116130*cb1`, each shifted and clamped. -/
+def ycbcrRGBA (y cb cr : Nat) : Nat × Nat × Nat × Nat :=
+  let yy1 : Int := (y : Int) * 65793
+  let cb1 : Int := (cb : Int) - 128
+  let cr1 : Int := (cr : Int) - 128
+  (ycbcrClamp (yy1 + 91881 * cr1), ycbcrClamp (yy1 - 22554 * cb1 - 46802 * cr1), ycbcrClamp (yy1 + 116130 * cb1), 0xffff)
+
 /-- A direct colour value `0x02RRGGBB` (flag bit 25 = RGB), by arithmetic. -/
 def directColor (r g b : Nat) : Nat := 2 ^ 25 + r * 65536 + g * 256 + b
 
